@@ -80,6 +80,7 @@ class Stats:
         self.known_examples = {}
         self.samples = []
         self.caps = []
+        self.impl_crashes = 0
         self.notes = []
         self._findings = load_known_findings(prop) if prop else []
 
@@ -113,6 +114,7 @@ class Stats:
 
     def merge(self, o):
         self.evaluations += o.evaluations
+        self.impl_crashes += getattr(o, 'impl_crashes', 0)
         self.transitions += o.transitions
         self.traces += o.traces
         self.states |= o.states
@@ -141,8 +143,29 @@ def _shard_entry(args):
     fn, shard, nshards, fargs = args
     try:
         return ('ok', fn(shard, nshards, *fargs))
-    except BaseException:
-        return ('err', 'shard {}: {}'.format(shard, traceback.format_exc()))
+    except BaseException as e:
+        text = 'shard {}: {}'.format(shard, traceback.format_exc())
+        if isinstance(e, Exception) and not isinstance(e, Horizon) and _raised_in_implementation(e):
+            return ('implcrash', (shard, text))
+        return ('err', text)
+
+
+def _raised_in_implementation(e):
+    """True if the innermost frame of the exception's traceback is code of the tree under
+    test (not the harness, not the standard library): the implementation raised on an input
+    the driver considered in-domain.  Drivers normally catch this per case; this is the
+    backstop, so that such a crash is reported as a violation of the property being explored
+    rather than as a broken check."""
+    from .skbuild import REPO
+    tb = e.__traceback__
+    last = None
+    while tb is not None:
+        last = tb
+        tb = tb.tb_next
+    if last is None:
+        return False
+    fname = os.path.abspath(last.tb_frame.f_code.co_filename)
+    return fname.startswith(os.path.abspath(REPO) + os.sep) and not fname.startswith(VERIF + os.sep)
 
 
 def run_shards(fn, *fargs, nshards=None, prop=None):
@@ -164,7 +187,16 @@ def run_shards(fn, *fargs, nshards=None, prop=None):
     for kind, val in res:
         if kind == 'err':
             raise BrokenCheck(val)
-        total.merge(val)
+    for kind, val in res:
+        if kind == 'implcrash':
+            shard, text = val
+            total.impl_crashes += 1
+            total.caps.append('shard {} of {} stopped when the implementation raised; the rest of its share was not explored'.format(shard, nshards))
+            total.violation('impl-crash/shard-{}'.format(shard), {'impl_crash': True, 'traceback': text},
+                            'the implementation raised on an in-domain case: ' + text.strip().splitlines()[-1] + ' | ' + ' / '.join(text.strip().splitlines()[-7:-1]),
+                            tags={'group': 'impl-crash'}, order=-1)
+        else:
+            total.merge(val)
     return total
 
 
